@@ -48,6 +48,8 @@ class Contract:
     definitions: List[str] = field(default_factory=list)  # definitional axioms of opaque spec predicates (conservative extensions):
     # assumed while proving THIS function only, so that callers see the predicate as an opaque name
     ensures: List[str] = field(default_factory=list)
+    lets: Dict[str, Tuple[str, str, str]] = field(default_factory=dict)  # name -> (int parameter, result type, expression over the ENTRY state):
+    # a local abbreviation, introduced as a fresh function symbol with its defining axiom (keeps quantified clauses small)
     raises: List[Raises] = field(default_factory=list)  # exceptional outcomes (for callers) / allowed escapes (for proof)
     xensures: Dict[str, List[str]] = field(default_factory=dict)  # proved on every path raising that class
     modifies: List[str] = field(default_factory=list)  # heap field names (or "obj.field" paths, or "*")
